@@ -88,6 +88,25 @@ impl Driver {
     }
 }
 
+/// Verification hook (only with `--cfg petrichorit_des_verif`): an abstract snapshot of
+/// the driver, `(deadline, number of registered entries)` of every pending slot in queue
+/// order and the time of the wake-up event the driver believes to be scheduled
+/// (`None` if there is none).
+#[cfg(petrichorit_des_verif)]
+impl Driver {
+    pub(crate) fn verif_snapshot(&self) -> (Vec<(SimTime, usize)>, Option<SimTime>) {
+        let slots = self
+            .queue
+            .pending
+            .borrow()
+            .iter()
+            .map(|slot| (slot.time, slot.entrys.borrow().len()))
+            .collect();
+        let next_wakeup = (self.next_wakeup != SimTime::MAX).then_some(self.next_wakeup);
+        (slots, next_wakeup)
+    }
+}
+
 impl TimerQueue {
     fn new() -> Self {
         Self {
